@@ -5,6 +5,7 @@ import (
 	"fmt"
 	"sort"
 	"sync"
+	"sync/atomic"
 	"time"
 
 	"github.com/mdzio/go-mqtt/message"
@@ -488,6 +489,40 @@ func (e *exec) doEnd(ci int, how string) {
 		c.Send(&codec.Packet{Type: codec.DISCONNECT})
 		c.Close()
 		e.class("disconnect-then-immediate-close")
+	case "requests-disconnect-close":
+		// Requests that need an answer, then DISCONNECT, in one write by a client
+		// that has stopped reading and closes. The schedule is forced: the
+		// processor is held before it writes its last answer until the sender
+		// has failed on the closed socket (the earlier answers could not be
+		// delivered) - the remaining answer cannot be written any more, yet the
+		// DISCONNECT behind it was received and suppresses the will.
+		id := c.ID()
+		var writes atomic.Int32
+		var trapped atomic.Bool
+		release := make(chan struct{})
+		fix.SetYield(func(point string, obj interface{}) {
+			if point != "writeMessage.enter" {
+				return
+			}
+			if x, ok := obj.(uint64); ok && x == id && writes.Add(1) == 3 && trapped.CompareAndSwap(false, true) {
+				<-release
+			}
+		})
+		c.Stall()
+		c.SendAsync(append(bytes.Repeat([]byte{0xC0, 0}, 3), 0xE0, 0))
+		for i := 0; i < 4000 && !trapped.Load(); i++ {
+			time.Sleep(250 * time.Microsecond)
+		}
+		c.Close()
+		if trapped.Load() {
+			settled(300 * time.Millisecond)
+			e.class("disconnect-behind-unanswerable-requests")
+		} else {
+			e.class("requests-disconnect-close-not-forced")
+		}
+		close(release)
+		fix.SetYield(nil)
+		how = "disconnect-close"
 	case "garbage":
 		c.SendRaw([]byte{0xF0, 0x00}) // reserved packet type 15
 	default:
@@ -1110,7 +1145,7 @@ func runPlan(p Plan, known func(string) bool) outcome {
 			e.doUnsubscribe(op)
 		case "pub":
 			e.doPublish(op)
-		case "disconnect", "close", "garbage", "disconnect-close":
+		case "disconnect", "close", "garbage", "disconnect-close", "requests-disconnect-close":
 			if e.conns[op.C] != nil {
 				e.doEnd(op.C, op.K)
 			}
